@@ -9,7 +9,7 @@ KEYS = ['parso.python.tree._StringComparisonMixin.__eq__', 'parso.python.tree._S
         # refactoring is an exact splice: the visit recursion computes the spec function rcode (contracts/refactor.py)
         'parso.normalizer.RefactoringNormalizer.visit', 'parso.normalizer.RefactoringNormalizer.visit_leaf',
         'parso.normalizer.Normalizer.visit#refactor', 'parso.normalizer.Normalizer.visit_leaf#refactor',
-        'parso.normalizer.Normalizer._check_type_rules#refactor']
+        'parso.normalizer.Normalizer._check_type_rules#refactor', 'parso.python.tree.Param.__init__']
 
 
 def run(report):
